@@ -60,7 +60,8 @@ def _limit(tag, lim):
     if lim is None:
         return ""
     v, t = lim
-    return f'<{tag} INTERVAL-TYPE="{t}">{val_str(v)}</{tag}>'
+    a = f' INTERVAL-TYPE="{t}"' if t is not None else ""          # attribute absent = CLOSED
+    return f'<{tag}{a}>{"" if v is None else val_str(v)}</{tag}>'  # no value: INFINITE limits
 
 
 def compu_xml(cm) -> str:
@@ -86,7 +87,8 @@ def compu_xml(cm) -> str:
                 if s.get("inv") is not None:
                     x += f"<COMPU-INVERSE-VALUE><V>{val_str(s['inv'])}</V></COMPU-INVERSE-VALUE>"
                 if s.get("const") is not None:
-                    x += f"<COMPU-CONST><V>{val_str(s['const'])}</V></COMPU-CONST>"
+                    x += (f"<COMPU-CONST><VT>{escape(s['const'])}</VT></COMPU-CONST>" if isinstance(s["const"], str) else
+                          f"<COMPU-CONST><V>{val_str(s['const'])}</V></COMPU-CONST>")
                 if s.get("num") is not None:
                     x += ("<COMPU-RATIONAL-COEFFS><COMPU-NUMERATOR>" + "".join(f"<V>{val_str(v)}</V>" for v in s["num"]) + "</COMPU-NUMERATOR>"
                           + ("<COMPU-DENOMINATOR>" + "".join(f"<V>{val_str(v)}</V>" for v in s["den"]) + "</COMPU-DENOMINATOR>" if s.get("den") else "")
@@ -96,8 +98,12 @@ def compu_xml(cm) -> str:
         inv = ""
         if cm.inv_scales:
             inv = f"<COMPU-PHYS-TO-INTERNAL><COMPU-SCALES>{scales_xml(cm.inv_scales)}</COMPU-SCALES></COMPU-PHYS-TO-INTERNAL>"
+        dv = ""
+        if cm.default is not None:
+            dv = (f"<COMPU-DEFAULT-VALUE><VT>{escape(cm.default)}</VT></COMPU-DEFAULT-VALUE>" if isinstance(cm.default, str) else
+                  f"<COMPU-DEFAULT-VALUE><V>{val_str(cm.default)}</V></COMPU-DEFAULT-VALUE>")
         return (f"<COMPU-METHOD><CATEGORY>{cm.category}</CATEGORY><COMPU-INTERNAL-TO-PHYS><COMPU-SCALES>{scales_xml(cm.scales)}"
-                f"</COMPU-SCALES></COMPU-INTERNAL-TO-PHYS>{inv}</COMPU-METHOD>")
+                f"</COMPU-SCALES>{dv}</COMPU-INTERNAL-TO-PHYS>{inv}</COMPU-METHOD>")
     raise TypeError(cm)
 
 
